@@ -205,6 +205,13 @@ def instantiate_funs(env, choice):
     return env
 
 
+def same_clause(native_label, target):
+    """A native failure confirms a symbolic obligation only when it is the same clause."""
+    if target is None:
+        return False
+    return native_label == target or native_label.split(":")[-1] == target.split(":")[-1]
+
+
 def pyvc_replayer(E, c: S.Contract, model, env, obl):
     """(replayed?, data) -- tries the counter-model, then a directed small-scope search."""
     attempts = []
@@ -222,7 +229,7 @@ def pyvc_replayer(E, c: S.Contract, model, env, obl):
                 if not out.pre_ok:
                     attempts.append({"input": shown, "note": "model input does not satisfy the precondition natively"})
                     break
-                if out.failed:
+                if out.failed and any(same_clause(l, target) for l, e in out.failed):
                     return True, {"source": "smt-model", "input": shown,
                                   "failed_clauses": [{"clause": l, "expr": e} for l, e in out.failed],
                                   "exception": repr(out.exception), "fun_choice": list(choice),
@@ -238,6 +245,7 @@ def pyvc_replayer(E, c: S.Contract, model, env, obl):
     # directed search: same contract, small-scope inputs
     try:
         evals, fails, skipped = bounded_check(c, 400)
+        fails = [f for f in fails if same_clause(f["clause"], target)]
         if fails:
             return True, {"source": "small-scope-search", "evaluations": evals, "failures": fails[:3],
                           "how": "real function %s run on enumerated small inputs with the contract evaluated natively" % c.key,
